@@ -10,8 +10,10 @@ assertions and overflow checks (std's unsafe-precondition checks, arrayvec's pus
 and the crate's own debug_asserts turn a violated precondition into a trap): walks with the three
 move operations, iterator operation sequences, the parser and builder on arbitrary inputs,
 bitboard iteration, text parsers, the whole opening book, slider lookups, searches for every early
-expiry instant, searches given enough polls for more than 65536 passes on O(1) trees, and 1100-ply
-reversible manoeuvres through the plugin.  Any panic or abnormal exit is a violation.
+expiry instant, searches given enough polls for more than 65536 passes on O(1) trees, 1100-ply
+reversible manoeuvres through the plugin with searches on top of the long history, and every board
+operation and a search on positions whose move counters are at the top of their 16-bit range (set up
+through the builder) or whose repetition history exceeds an 8-bit count.  Any panic or abnormal exit is a violation.
 Rust-level undefined behaviour that does not trap cannot be observed by this technique."""
 import json
 import os
@@ -60,6 +62,7 @@ def run(ctx):
         ("book", ["book-export", "--out", w + "/h.json", "--walk", w + "/i.json"]),
         ("search-early-expiry", ["record-search", "--mode", "allk", "--tags", "tiny,perft,cap18", "--seed", s, "--events", 60000 if q else 600000, "--kmax", 300, "--out", w + "/j.ndjson"]),
         ("search-many-passes", ["stress-search", "--tags", "tiny", "--polls", 70000 if q else 200000, "--out", w + "/k.ndjson"]),
+        ("extremal-counters", ["stress-clocks", "--seed", s, "--tags", "tiny,std,clock,promo" if q else "tiny,std,clock,promo,perft,castle,ep"]),
         ("plugin-long-shuffle", ["record-bot", "--mode", "long", "--tags", "std", "--seed", s, "--events", 1200, "--out", w + "/l.ndjson"]),
         ("plugin-shuffle", ["record-bot", "--mode", "shuffle", "--seed", s, "--events", 4000 if q else 60000, "--out", w + "/m.ndjson"]),
     ]
@@ -82,6 +85,7 @@ def run(ctx):
         done += 1
     ctx.cov["distinct_nontrivial"] += done
     ctx.sample({"scenario": "search-many-passes", "what": "Engine::search on positions without legal moves / at half-move clock 99 with a limit of 70000 polls (more than 65536 deepening passes)"})
+    ctx.sample({"scenario": "extremal-counters", "what": "builder positions with half-move / full-move counters 65534, 65535: six plies through move_new / move_mut / move_into, every legal move applied once, status, text, hash, and a search; searches on a history that holds the root and four successors 300 times each"})
     ctx.sample({"scenario": "plugin-long-shuffle", "what": "g1f3 g8f6 f3g1 f6g8 repeated for 1100 plies through the cdylib (start position occurs 275 times)"})
     ctx.assumptions += ["a violated precondition traps in a build with debug assertions and overflow checks; undefined behaviour that does not trap is not observable here",
                         "TLC evaluates the specification correctly (model part)"]
